@@ -156,10 +156,11 @@ Lemma root_close_spec : forall c s ok c1 s1, root_close c s = (ok, c1, s1) ->
 Proof.
   unfold root_close; intros c s ok c1 s1 H. destruct (txn c) as [[|]|] eqn:Et.
   - destruct (db_rollback (cdb c) s) as [[ok' d1] s2] eqn:E. apply db_rollback_spec in E. destruct E as [E1 E2].
-    inversion H; subst; clear H. destruct ok.
-    + subst d1. destruct (cancel_nested_frame (set_txn (set_cdb c (clean (cdb c))) None)) as (A & B & C & D).
-      rewrite A, B, C, D. cbn. auto 10.
-    + subst d1. cbn. split; auto. split; auto. split; auto. split; auto. split; [intros _ Hf; discriminate|auto].
+    inversion H; subst; clear H.
+    destruct (cancel_nested_frame (set_txn (set_cdb c d1) None)) as (A & B & C & D).
+    rewrite A, B, C, D. cbn. destruct ok; subst d1.
+    + auto 10.
+    + split; auto. split; auto. split; auto. split; auto. split; [intros _ Hf; discriminate|auto].
   - inversion H; subst; clear H. destruct (cancel_nested_frame c) as (A & B & C & D). cbn. rewrite A, B, C.
     split; [apply Fr_refl|]. split; auto. split; auto. split; auto. split; [dd|auto].
   - inversion H; subst; clear H. split; [apply Fr_refl|]. split; auto. split; auto. split; auto. split; [dd|intros Hn; congruence].
